@@ -172,6 +172,37 @@ Apply(s) ==
     [] s.op = "login"   -> LoginAttempt(s)
     [] s.op = "restart" -> Restart(s)
 
+(* ---- concurrent rounds ------------------------------------------------------- *)
+(* Several administrators send one request each at the same moment; the round ends when every request has been
+   answered (quiescence).  A request is [kind, login, name, pw, acc], kind: newuser | setuser | deluser | put | del
+   (put / del: an update-user with that single sub-operation); passwords are explicit or absent, never the marker,
+   so every writing request writes a record that is a function of the request alone.  The handlers are not atomic
+   (look-up, then write), so the outcome need not be that of any sequential order; RoundFacts(pre, reqs, post) is
+   what holds after the round under EVERY interleaving (the four views must, as always, all show `post`):
+     untouched  - a login no request names is as before;
+     appeared   - a login that exists afterwards existed before or was named by a creating request;
+     unwritten  - an account that exists afterwards is as before or carries the record one request of the round wrote;
+     undeleted  - a login named only by delete requests is gone.
+   The value is the set of the facts that FAIL. *)
+IsReq(q) == /\ {"kind", "login", "name", "pw", "acc"} \subseteq DOMAIN q
+            /\ q.kind \in {"newuser", "setuser", "deluser", "put", "del"}
+            /\ IsBytes(q.login) /\ q.login # <<>> /\ IsBytes(q.name) /\ IsPwArg(q.pw) /\ q.pw.v # Marker /\ q.acc \subseteq 0..63
+            /\ (q.kind = "put" => q.pw.has)
+ValOf(q) == [name |-> q.name, pw |-> CreatePw(q.pw), acc |-> q.acc]
+SameRec(a, b) == a.name = b.name /\ a.acc = b.acc /\ SamePw(a.pw, b.pw)
+RoundFacts(pre, reqs, post) ==
+  LET ReqsOn(lg) == {reqs[i] : i \in {j \in DOMAIN reqs : reqs[j].login = lg}}
+      All == DOMAIN pre \cup DOMAIN post \cup {reqs[i].login : i \in DOMAIN reqs}
+      Kept(lg) == lg \in DOMAIN pre /\ lg \in DOMAIN post /\ SameRec(pre[lg], post[lg])
+  IN (IF \E lg \in All : ReqsOn(lg) = {} /\ ~(Kept(lg) \/ (lg \notin DOMAIN pre /\ lg \notin DOMAIN post))
+        THEN {"untouched"} ELSE {})
+     \cup (IF \E lg \in DOMAIN post \ DOMAIN pre : ~\E q \in ReqsOn(lg) : q.kind \in {"newuser", "put"}
+        THEN {"appeared"} ELSE {})
+     \cup (IF \E lg \in DOMAIN post : ~Kept(lg) /\ ~\E q \in ReqsOn(lg) : q.kind \in {"newuser", "setuser", "put"} /\ SameRec(ValOf(q), post[lg])
+        THEN {"unwritten"} ELSE {})
+     \cup (IF \E lg \in DOMAIN post : ReqsOn(lg) # {} /\ \A q \in ReqsOn(lg) : q.kind \in {"deluser", "del"}
+        THEN {"undeleted"} ELSE {})
+
 (* ---- properties (state level; the step-level ones are in MC_Accounts) -------- *)
 TypeOK == \A l \in DOMAIN mem : IsBytes(l) /\ l # <<>> /\ IsBytes(mem[l].name) /\ IsBytes(mem[l].pw) /\ mem[l].acc \subseteq 0..63
 
